@@ -11,8 +11,8 @@ import struct
 from .common import fhex, ints
 
 PROP_FILE = "Properties/C12.v"
-GEN = ["GenC12"]
-RUN_FILES = ["Model/C12_run.v", "Model/C12_run_area.v"]
+GEN = ["GenC12", "GenC12imp"]
+RUN_FILES = ["Model/C12_run.v", "Model/C12_run_area.v", "Model/C12_imp_run.v"]
 
 PROJ_FAMILIES = [
     "+proj=laea +lat_0=50 +lon_0=10 +ellps=WGS84",
@@ -91,6 +91,7 @@ class Gen:
         self.keys, self.kmeta = [], []
         self.lru = []
         self.area_hist, self.swath_hist, self.stack_hist = [], [], []
+        self.gah = []
 
     def add(self, g, **meta):
         self.geos.append(g)
@@ -356,6 +357,25 @@ class Gen:
                 self.kmeta.append({"mode": "kw_falsy"})
                 self.ctx.count("key_kw_falsy_fixed")
 
+    def gah_trees(self):
+        """Array trees for get_array_hashable: numpy (plain / masked) and dask leaves, bare or wrapped in a DataArray with or
+        without its own .name and with or without attrs['hash']."""
+        r, ctx = self.r, self.ctx
+        self.gah = []
+        datas = [[[float(r.randint(-9, 9)) for _ in range(2)] for _ in range(2)] for _ in range(4)]
+        for _ in range(ctx.n(60, 400)):
+            d = r.choice(datas)
+            leaf = r.choice(["np", "np", "masked", "dask"])
+            if leaf == "dask":
+                t = {"k": "dask", "data": [[hx(v) for v in row] for row in d], "chunks": r.choice([1, 2])}
+            else:
+                t = {"k": "np", "data": [[hx(v) for v in row] for row in d],
+                     "mask": [[r.random() < 0.3 for _ in range(2)] for _ in range(2)] if leaf == "masked" else None}
+            if leaf != "masked" and r.random() < 0.75:      # xarray turns a masked array into NaN-filled data: another array
+                t = {"k": "xr", "name": r.choice([None, None, "lons", "a"]), "attr": r.choice([None, None, "h1", "lons"]), "inner": t}
+            self.gah.append(t)
+            ctx.count("gah_%s%s" % (leaf, "" if t["k"] != "xr" else "_in_xr%s%s" % ("_named" if t["name"] else "", "_attr" if t["attr"] else "")))
+
     def f32_tiny(self):
         """np.isclose in float32 differs from float64 evaluation only where |x - y| is of the order of atol: extents of
         magnitude 1e-9..1e-5 (degrees), one value moved to the float32 numbers around y +- tolerance."""
@@ -435,7 +455,7 @@ class Gen:
             meta = dict(lon=lon, lat=lat, ndim=ndim, dtype=dtype, shape=(rws, cols))
             base = self.add(self.swath_spec("np", lon, lat, ndim, dtype), kind="np", **meta)
             variants = {"np": base}
-            for kind in ["list", "xr", "fortran", "view"]:
+            for kind in ["list", "xr", "xrnamed", "fortran", "view"]:
                 if kind == "list" and dtype == "f4":
                     continue        # a python list of floats becomes float64: another dtype
                 i = self.add(self.swath_spec(kind, lon, lat, ndim, dtype), kind=kind, **meta)
@@ -624,7 +644,7 @@ class Gen:
                          "(numpy; xarray over dask) and over {hash, ==, full slice, partial slice, copy} on a 46x48 area (PROJ string; EPSG:3857)" % L)
 
     def payload(self):
-        return {"geos": self.geos, "pairs": self.pairs, "keys": self.keys, "kwargs": KWARGS, "lru": self.lru,
+        return {"geos": self.geos, "pairs": self.pairs, "keys": self.keys, "kwargs": KWARGS, "lru": self.lru, "gah": self.gah,
                 "area_hist": self.area_hist, "swath_hist": self.swath_hist,
                 "stack_hist": [{k: v for k, v in c.items() if k in ("init", "ops", "eq_fresh")} for c in self.stack_hist]}
 
@@ -959,6 +979,7 @@ def coq_geo(g, i, obs):
 HDR0 = ("From Coq Require Import ZArith List Bool PrimFloat.\nFrom PR Require Model.Stack.\nFrom PR Require Import Base.Num Base.F64 Base.Slice Base.ListX Model.HashEq "
         "Model.C12_run.\nImport ListNotations.\nOpen Scope Z_scope.\n")
 # only the area histories execute the regenerated __getitem__: the other shards still run when the translation is broken
+HDR_IMP = HDR0 + "From PR Require Import Base.Imp Model.ImpHash Gen.GenC12 Gen.GenC12imp Model.C12_imp_run.\n"
 HDR_AREA = HDR0 + "From PR Require Import Gen.GenC12 Model.C12_slice Model.C12_run_area.\n"
 
 
@@ -974,20 +995,56 @@ def shard_text(g, obs, kind, items):
     for old in need:
         t = coq_geo(g, old, obs)
         pool.append(t if t is not None else "dflt_geo")
-    chk = {"pair": "chk_pair", "key": "chk_key", "area_hist": "chk_area_hist", "swath_hist": "chk_swath_hist", "stack_hist": "chk_stack_hist"}[kind]
-    ty = {"pair": "pair_case", "key": "key_case", "area_hist": "area_hist_case", "swath_hist": "swath_hist_case", "stack_hist": "stack_hist_case"}[kind]
+    if kind == "imp_gah":
+        cases = [f({}) for _, f in items]
+        return cases, (HDR_IMP + "Definition cases : list gah_case := [\n%s].\nEval vm_compute in (bad chk_imp_gah cases).\n" % ";\n".join(cases))
+    chk = {"imp_pair": "chk_imp_pair", "pair": "chk_pair", "key": "chk_key", "area_hist": "chk_area_hist", "swath_hist": "chk_swath_hist", "stack_hist": "chk_stack_hist"}[kind]
+    ty = {"imp_pair": "imp_pair_case", "pair": "pair_case", "key": "key_case", "area_hist": "area_hist_case", "swath_hist": "swath_hist_case", "stack_hist": "stack_hist_case"}[kind]
     cases = [f(mp) for _, f in items]
-    return cases, ((HDR_AREA if kind == "area_hist" else HDR0) + "Definition pool : list geo := [\n%s].\nDefinition cases : list %s := [\n%s].\nEval vm_compute in (bad (%s pool) cases).\n"
+    return cases, ((HDR_AREA if kind == "area_hist" else HDR_IMP if kind == "imp_pair" else HDR0) + "Definition pool : list geo := [\n%s].\nDefinition cases : list %s := [\n%s].\nEval vm_compute in (bad (%s pool) cases).\n"
             % (";\n".join(pool), ty, ";\n".join(cases), chk))
 
 
 def build_coq(ctx, g, obs, skip):
     """All correspondence shards. skip: set of (kind, idx) not to be fed to the model (driver errors)."""
-    items = {"pair": [], "key": [], "area_hist": [], "swath_hist": [], "stack_hist": []}
+    items = {"pair": [], "key": [], "area_hist": [], "swath_hist": [], "stack_hist": [], "imp_pair": [], "imp_gah": []}
+    # ---- wave 3: the imp-translated get_array_hashable on array trees
+    import hashlib
+    strs = {}
+
+    def sid(x):
+        return strs.setdefault(x, len(strs) + 1)
+
+    def cid(data):
+        raw = b"".join(struct.pack("<d", float.fromhex(v)) for row in data for v in row)
+        return int(hashlib.sha1(raw).hexdigest()[:12], 16)
+
+    def tree_txt(t, names):
+        if t["k"] == "np":
+            return "(PNp (%d) %s)" % (cid(t["data"]), "None" if t.get("mask") is None else "(Some (7))")
+        if t["k"] == "dask":
+            return "(PDask [TName (%d)] (%d))" % (sid(names[0]), cid(t["data"]))
+        opt = lambda v: "None" if v is None else "(Some [TName (%d)])" % sid(v)
+        return "(PXr %s %s %s)" % (opt(t.get("name")), opt(t.get("attr")), tree_txt(t["inner"], names))
+
+    def leaf_data(t):
+        return leaf_data(t["inner"]) if t["k"] == "xr" else t["data"]
+    for t, r in zip(getattr(g, "gah", []), obs.get("gah", [])):
+        if "error" in r:
+            ctx.broken.append(("correspondence:imp_gah", "get_array_hashable raised %s on %s" % (r["error"], json.dumps(t)[:200])))
+            continue
+        if "name" in r:
+            exp = "(TName (%d))" % sid(r["name"])
+        else:
+            raw = b"".join(struct.pack("<d", float.fromhex(v)) for row in leaf_data(t) for v in row)
+            exp = "(TInt (%d))" % cid(leaf_data(t)) if hashlib.sha1(raw).hexdigest() == r["bytes"] else "(TInt (-1))"
+        items["imp_gah"].append(([], (lambda mp, t=t, r=r, exp=exp: "(%s, %s)" % (tree_txt(t, r["dask_names"]), exp))))
     okgeo = lambda i: "error" not in obs["geos"][i] and g.geos[i]["t"] != "stack"
     for idx, ((i, j), pm, r) in enumerate(zip(g.pairs, g.pmeta, obs["pairs"])):
         if "error" in r or not (okgeo(i) and okgeo(j)) or ("pair", idx) in skip:
             continue
+        if g.geos[i]["t"] == "swath" and g.geos[j]["t"] == "swath":
+            items["imp_pair"].append(([i, j], (lambda mp, i=i, j=j, r=r: "(%d, %d, %s)" % (mp[i], mp[j], b(r["digest"])))))
         rels = [r["hash"], r["digest"]] + [r[k] for k in ("hashargs", "daskname") if k in r]
         rels += [v for k, v in sorted((r.get("keys") or {}).items()) if k != "error"]
         c12, c21 = r.get("c12", True), r.get("c21", True)
@@ -1067,7 +1124,7 @@ def build_coq(ctx, g, obs, skip):
         items["stack_hist"].append((c["members"], f))
     texts = []
     for kind, its in items.items():
-        size = {"pair": 250, "key": 300, "area_hist": 60, "swath_hist": 60, "stack_hist": 100}[kind]
+        size = {"pair": 250, "key": 300, "area_hist": 60, "swath_hist": 60, "stack_hist": 100, "imp_pair": 300, "imp_gah": 400}[kind]
         for s in range(0, len(its), size):
             cases, text = shard_text(g, obs, kind, its[s:s + size])
             texts.append(("c12_%s_%03d" % (kind, s // size), text, kind, cases))
@@ -1092,6 +1149,7 @@ def run(ctx):
     g = Gen(ctx)
     g.areas()
     g.falsy_keys()
+    g.gah_trees()
     g.f32_tiny()
     g.swaths()
     g.stacks()
@@ -1122,6 +1180,8 @@ def evaluate(ctx, g, obs, record=False):
             ctx.count("pair_%s_%s_%s" % (g.geos[i]["t"], pm["cls"], pm["what"].split("_")[0] if pm["cls"] == "ident" else pm["what"]))
             if pm["cls"] == "ident" and "error" not in obs["geos"][i] and "error" not in obs["geos"][j] and lossy_wkt(obs, g.geos, i, j):
                 ctx.count("pair_area_ident_no_demand_wkt_dialect_not_read_back_by_pyproj")
+        for t in getattr(g, "gah", []):
+            ctx.case(("gah", json.dumps(t, sort_keys=True)), nontrivial=t["k"] != "np", sample=None)
         for name in ("area_hist", "swath_hist", "stack_hist"):
             for c in getattr(g, name):
                 muts = [op[0] for op in c["ops"] if op[0] not in ("hash", "eq")]
